@@ -155,9 +155,11 @@ AL_BA = ["Gibbsite", "Kaolinite", "Albite", "Anorthite", "K-feldspar", "K-mica",
 # ---------------------------------------------------------------------------------------------- the problem
 @st.composite
 def problem(draw):
-    flavour = draw(W([(6, "plain"), (2, "evap"), (1, "trace"), (1, "redox")]))
+    flavour = draw(W([(6, "plain"), (2, "evap"), (1, "trace"), (2, "redox"), (1, "salts")]))
     if flavour == "redox":
         return draw(redox_problem())
+    if flavour == "salts":
+        return draw(salts_problem())
     nsol = draw(W([(2, 1), (3, 2), (1, 3)]))
     floor = 1e-5 if flavour == "evap" else 1e-6
     minor = ("Si", "Br", "Li", "Sr", "F") + (("Al", "Ba") if flavour == "trace" else ())
@@ -366,14 +368,53 @@ def independent_subset(names, user_phases, smin=0.12):
     return kept
 
 
+# ---------------------------------------------------------------------------------------------- several equally good models
+SALT_SQUARES = [("Halite", "Arcanite", "Sylvite", "Thenardite"),        # 2 NaCl + K2SO4 = 2 KCl + Na2SO4
+                ("Halite", "Kieserite", "Thenardite", "Uchl"),          # 2 NaCl + MgSO4 = Na2SO4 + MgCl2
+                ("Sylvite", "Kieserite", "Arcanite", "Uchl")]           # 2 KCl + MgSO4 = K2SO4 + MgCl2
+
+
+@st.composite
+def salts_problem(draw):
+    """reciprocal salt pairs: the same change of the water is explained by two different pairs of a salt square, so several models
+    are reported (deliberately NOT filtered for linear independence); -range in most cases, permuted -phases order"""
+    sq = draw(st.sampled_from(SALT_SQUARES))
+    user_phases = [["Uchl", "MgCl2 = Mg+2 + 2 Cl-"]] if "Uchl" in sq else []
+    sol = draw(water(1, rich=True, floor=1e-5, minor=("Br", "Li")))
+    pair = draw(st.sampled_from([(sq[0], sq[1]), (sq[2], sq[3])]))
+    a = draw(cg.logu(2e-4, 3e-3, 2))
+    true = {pair[0]: a, pair[1]: float("%.3g" % (a * draw(st.sampled_from([0.5, 0.5, 0.3, 1.0]))))}
+    if draw(st.booleans()):
+        true["Calcite"] = draw(cg.logu(1e-5, 5e-4, 3))
+    rxn = [[reactant_text(p, user_phases), v] for p, v in true.items()]
+    extra = draw(st.lists(st.sampled_from(["CO2(g)", "Gypsum", "Dolomite", "Celestite", "Chalcedony"]), max_size=2, unique=True))
+    names = draw(st.permutations(list(sq) + [p for p in true if p not in sq] + [e for e in extra if e not in true]))
+    phases = [[p, draw(W([(3, ""), (1, "dis")])) if p in sq else "", False] for p in names]
+    present = set(approx_moles(sol)) | {"Na", "K", "Mg", "S", "Cl"}
+    inphase = set()
+    for p, _, _ in phases:
+        inphase |= set(phase_elements(p, user_phases))
+    balances = [[e, []] for e in sorted(present - inphase)]
+    inv = {"phases": phases, "unc": draw(st.sampled_from([[], [0.05], [0.1], [0.03, 0.08]])), "balances": balances,
+           "range": draw(W([(4, ""), (1, None), (1, 2000.0)])), "minimal": draw(W([(3, False), (1, True)])), "tolerance": None,
+           "mineral_water": None, "u_water": None, "force_solutions": None}
+    meta = {"true": dict(true), "perturb": "none", "flavour": "salts", "dropped_true": False, "umode": "one" if inv["unc"] else "default"}
+    return {"kind": "fwd", "db": DB, "sols": [sol], "mix": [1.0], "rxn": rxn, "eq": [], "user_phases": user_phases,
+            "perturb": [], "inv": inv, "meta": meta}
+
+
 # ---------------------------------------------------------------------------------------------- redox problems
 @st.composite
 def redox_problem(draw):
-    """pyrite oxidation by dissolved oxygen (A) or sulfate reduction by organic matter (B): Fe, S, C, O redox transfers"""
-    scen = draw(st.sampled_from(["A", "B"]))
+    """pyrite oxidation by dissolved oxygen (A), sulfate reduction by organic matter (B), denitrification by organic matter with
+    loss of N2(g) (C), organic matter oxidised while O2(g) enters the water (D), H2(g) entering a sulfate water (E): the phases
+    N2(g), O2(g), H2(g) are written with diatomic secondary master species (2 atoms per mole in the N(0) / O(0) / H(0) rows)"""
+    scen = draw(st.sampled_from(["A", "B", "C", "C", "D", "E"]))
     user_phases = [["CH2O", "CH2O + H2O = CO2 + 4 H+ + 4 e-"]]
     base = {"Na": draw(cg.logu(1e-3, 2e-2, 3)), "Ca": draw(cg.logu(2e-4, 3e-3, 3)), "C(4)": draw(cg.logu(5e-4, 5e-3, 3)),
             "S(6)": draw(cg.logu(2e-4, 5e-3, 3)), "Mg": draw(cg.logu(1e-4, 2e-3, 3))}
+    if scen in ("C", "D"):
+        del base["S(6)"]          # no sulfate: the forward step stays a nitrate / oxygen problem (and converges)
     comps = [[k, v, ""] for k, v in sorted(base.items())] + [["Cl", 1e-5, "charge"]]
     true = {}
     if scen == "A":
@@ -388,6 +429,35 @@ def redox_problem(draw):
         if eq:
             true["Goethite"] = None
         decoys = ["O2(g)", "Fe(OH)3(a)", "Gypsum", "Siderite", "CO2(g)", "Melanterite", "Dolomite", "Hematite"]
+    elif scen == "C":
+        n5 = draw(cg.logu(2e-4, 3e-3, 3))
+        comps.append(["N(5)", n5, ""])
+        pe = 10.0
+        ch = float("%.3g" % (1.25 * n5 * draw(cg.uni(0.15, 0.8, 2))))           # 4 e- per CH2O, 5 e- per nitrate N
+        true["CH2O"] = ch
+        true["N2(g)"] = -float("%.3g" % (0.4 * ch * draw(cg.uni(0.3, 0.9, 2))))    # part of the N2 formed leaves the water
+        if draw(st.booleans()):
+            true["Calcite"] = draw(cg.logu(1e-5, 5e-4, 3))
+        eq = []
+        decoys = ["CO2(g)", "Halite", "Gypsum", "Dolomite", "NH3(g)", "O2(g)", "CH4(g)", "H2(g)"]
+    elif scen == "D":
+        o2 = draw(cg.logu(5e-5, 3e-4, 3))
+        comps.append(["O(0)", o2, ""])
+        pe = 12.0
+        gas = draw(cg.logu(5e-5, 5e-4, 3))                                          # O2 entering
+        true["O2(g)"] = gas
+        true["CH2O"] = float("%.3g" % ((o2 / 2.0 + gas) * draw(cg.uni(0.1, 0.8, 2))))   # 1 O2 per CH2O, water stays oxic
+        if draw(st.booleans()):
+            true["Calcite"] = draw(cg.logu(1e-5, 5e-4, 3))
+        eq = []
+        decoys = ["CO2(g)", "Halite", "Gypsum", "Dolomite", "N2(g)", "H2(g)", "Pyrite", "Goethite"]
+    elif scen == "E":
+        pe = 0.0
+        true["H2(g)"] = draw(cg.logu(1e-5, 2e-4, 3))
+        if draw(st.booleans()):
+            true["Calcite"] = draw(cg.logu(1e-5, 5e-4, 3))
+        eq = []
+        decoys = ["CO2(g)", "Halite", "Gypsum", "Dolomite", "CH2O", "CH4(g)", "H2S(g)", "O2(g)", "Sulfur"]
     else:
         comps.append(["Fe(2)", draw(cg.logu(2e-6, 3e-5, 3)), ""])
         pe = 0.0
@@ -399,7 +469,8 @@ def redox_problem(draw):
         decoys = ["Pyrite", "Goethite", "Gypsum", "Siderite", "CO2(g)", "FeS(ppt)", "Dolomite", "Sulfur", "CH4(g)", "H2S(g)"]
     sol = {"number": 1, "units": "mol/kgw", "temp": 25.0, "pH": draw(cg.uni(6.5, 8.5, 3)), "pe": pe, "water": 1.0, "comps": comps}
     rxn = [[reactant_text(p, user_phases), a] for p, a in true.items() if a is not None]
-    present = {"Na", "Ca", "C", "S", "Mg", "Cl"} | ({"Fe"} if scen == "B" else set())
+    present = {"Na", "Ca", "C", "Mg", "Cl"} | ({"Fe"} if scen == "B" else set()) | ({"N"} if scen == "C" else set()) | (
+        {"S"} if scen not in ("C", "D") else set())
     inv, meta = draw(inverse_part(1, true, user_phases, present, "redox", decoy_pool=decoys))
     inv["mineral_water"] = None
     meta.update({"true": dict(true), "perturb": "none", "flavour": "redox" + scen})
